@@ -111,7 +111,7 @@ func (c *Ctx) repCaseWith(typeKey string, sp Spec, b Bars, reg string) bool {
 	}
 	dates, cols, hung, err := runReport(inst, b, time.Second)
 	if err == nil && hung {
-		dates, cols, hung, err = runReport(inst, b, 6*time.Second)
+		dates, cols, hung, err = runReport(inst, b, 4*time.Second)
 	}
 	if err != nil {
 		panic(err)
